@@ -206,6 +206,70 @@ func registerMoreIntrinsics() {
 		p := st.alloc(arr)
 		return ret1(SliceV{base: p, off: 0, len: n, cap: n})
 	}
+	// k8s.io/apimachinery/pkg/util/cache.LRUExpireCache: exact map; with
+	// zz.CacheExpiry(true) a present entry may additionally be reported missing
+	// (= its TTL elapsed) at any Get.
+	const lru = "k8s.io/apimachinery/pkg/util/cache."
+	lruObj := func(x *Exec, st *State, recv Value) *MapObj {
+		k := "lru:" + recv.(PtrV).String()
+		if m, ok := st.ghost[k]; ok {
+			return st.heap[m.(MapV).obj].(*MapObj)
+		}
+		return &MapObj{}
+	}
+	lruMap := func(x *Exec, st *State, recv Value) MapV {
+		k := "lru:" + recv.(PtrV).String()
+		if m, ok := st.ghost[k]; ok {
+			return m.(MapV)
+		}
+		p := st.alloc(&MapObj{})
+		m := MapV{obj: p.obj}
+		st.ghost[k] = m
+		return m
+	}
+	newLRU := func(x *Exec, st *State, fr *Frame, fn *ssa.Function, a []Value) (Value, int) {
+		return ret1(st.alloc(x.zero(typeOfPtrElem(fn.Signature.Results().At(0).Type()))))
+	}
+	intrinsics[lru+"NewLRUExpireCache"] = newLRU
+	intrinsics[lru+"NewLRUExpireCacheWithClock"] = newLRU
+	intrinsics["("+"*"+lru+"LRUExpireCache).Get"] = func(x *Exec, st *State, fr *Frame, fn *ssa.Function, a []Value) (Value, int) {
+		mo := lruObj(x, st, a[0])
+		idx := x.mapFind(st, mo, a[1])
+		if idx < 0 {
+			return ret1(TupleV{IfaceV{}, x.tc.False})
+		}
+		if _, ok := st.ghost["$cacheExpiry"]; ok {
+			if x.chooseN(st, 2, "cache expiry") == 1 {
+				st.trace = append(st.trace, "cache-entry-expired@"+x.pos(x.curInstr))
+				m := lruMap(x, st, a[0])
+				x.execBuiltin(st, fr, "delete", []Value{m, a[1]}, nil)
+				return ret1(TupleV{IfaceV{}, x.tc.False})
+			}
+		}
+		return ret1(TupleV{mo.entries[idx].val, x.tc.True})
+	}
+	intrinsics["("+"*"+lru+"LRUExpireCache).Add"] = func(x *Exec, st *State, fr *Frame, fn *ssa.Function, a []Value) (Value, int) {
+		mo := lruObj(x, st, a[0])
+		_ = x.mapFind(st, mo, a[1])
+		x.mapSet(st, lruMap(x, st, a[0]), a[1], a[2])
+		return nil, 1
+	}
+	intrinsics["("+"*"+lru+"LRUExpireCache).Remove"] = func(x *Exec, st *State, fr *Frame, fn *ssa.Function, a []Value) (Value, int) {
+		mo := lruObj(x, st, a[0])
+		_ = x.mapFind(st, mo, a[1])
+		x.execBuiltin(st, fr, "delete", []Value{lruMap(x, st, a[0]), a[1]}, nil)
+		return nil, 1
+	}
+	intrinsics[zz+"CacheExpiry"] = func(x *Exec, st *State, fr *Frame, fn *ssa.Function, a []Value) (Value, int) {
+		if a[0].(*Term).IsTrue() {
+			st.ghost["$cacheExpiry"] = x.tc.True
+		} else {
+			delete(st.ghost, "$cacheExpiry")
+		}
+		st.mutGen++
+		return nil, 1
+	}
+	redirects["(*golang.org/x/sync/singleflight.Group).Do"] = "M_singleflight_Do"
 	redirects["crypto/sha1.New"] = "M_sha1_New"
 	redirects["crypto/md5.New"] = "M_md5_New"
 	redirects["crypto/md5.Sum"] = "M_md5_Sum"
